@@ -463,8 +463,13 @@ async def part_bc(loop: vloop.VirtualLoop, ctx) -> None:
         for mode in modes:
             chunks = _cuts(ctx, data, mode)
             got = await port_rig.feed(chunks)
-            if port_rig.residue:
-                got += await port_rig.feed([b"\r\n"])
+            if port_rig.residue:  # the stream ends with CRLF: nothing may be withheld
+                ctx.violate(
+                    f"C01|partition|bytes-withheld-after-complete-stream|{mode.split('@')[0]}",
+                    "after all bytes of a CRLF-terminated stream were read, the serial transport still withholds some of them (frames not delivered for this read split)",
+                    {"stream": stream, "mode": mode, "withheld": repr(port_rig.residue[:80]), "delivered": len(got), "one_read": len(baseline)},
+                )
+                await port_rig.feed([b"\r\n"])  # clean up for the next case (not part of the observation)
             ctx.ev()
             ctx.count("partition.cases")
             mkind = mode.split("@")[0]
